@@ -2,7 +2,7 @@
    Only statements, each closed by [exact].  Model: Orm/Schema.v over Gen/ParseField.v (regenerated from
    wrapped_table.py / ormatic.py / wrapped_field.py on every run); Spec: Orm/SchemaSpec.v.
    [wfM] = the documented grammar; [topo M order] = the emission order lists every class once, parents first;
-   F = [F_selfcoll], [F_hasbuiltin], [F_attrnames], [F_classnames] (complement of the defect classes, see _refuted). *)
+   F = [F_selfcoll], [F_attrnames], [F_classnames] (complement of the defect classes, see _refuted). *)
 From Coq Require Import List String Ascii Bool ZArith Permutation.
 From Krrood Require Import Base.Sx Orm.SchemaStr Orm.SchemaSpec Gen.ParseField Orm.Schema Orm.SchemaProofs Orm.SchemaWf.
 Import ListNotations.
@@ -60,7 +60,7 @@ Theorem C06_wf_polymorphic : forall M order, wfM M = true -> (forall c, In c ord
   wf_polymorphic (gen M order) = true.
 Proof. exact polymorphic_ok. Qed.
 
-Theorem C06_wf_imports : forall M order, wfM M = true -> F_hasbuiltin M = true -> topo M order ->
+Theorem C06_wf_imports : forall M order, wfM M = true -> topo M order ->
   wf_imports (gen M order) = true.
 Proof. exact imports_closed. Qed.
 
@@ -76,8 +76,10 @@ Proof. exact tables_order_independent. Qed.
 (* the defect classes: models of the grammar on which the generated layer is not well-formed *)
 Theorem C06_refuted_selfcoll : exists M order, wfM M = true /\ topo M order /\ wf_assoc_columns (gen M order) = false.
 Proof. exact refuted_selfcoll. Qed.
-Theorem C06_refuted_nobuiltin : exists M order, wfM M = true /\ topo M order /\ wf_imports (gen M order) = false.
-Proof. exact refuted_nobuiltin. Qed.
+(* C06-b was repaired in /repo (b804898): the former counter-model is now well-formed and read back as the Spec says *)
+Example C06_fixed_nobuiltin : wfM M_nobuiltin = true /\ inF M_nobuiltin = true /\ wf_imports (gen M_nobuiltin M_nobuiltin) = true
+  /\ schema_wf (gen M_nobuiltin M_nobuiltin) = true /\ model_obs (gen M_nobuiltin M_nobuiltin) = spec_obs M_nobuiltin.
+Proof. exact fixed_nobuiltin. Qed.
 Theorem C06_refuted_fkalias : exists M order, wfM M = true /\ topo M order /\ wf_attrs_unique (gen M order) = false.
 Proof. exact refuted_fkalias. Qed.
 Theorem C06_refuted_reserved : exists M order, wfM M = true /\ topo M order /\ wf_attrs_not_reserved (gen M order) = false.
@@ -109,7 +111,6 @@ Print Assumptions C06_wf_imports.
 Print Assumptions C06_wf_fk_targets.
 Print Assumptions C06_tables_order_independent.
 Print Assumptions C06_refuted_selfcoll.
-Print Assumptions C06_refuted_nobuiltin.
 Print Assumptions C06_refuted_fkalias.
 Print Assumptions C06_refuted_reserved.
 Print Assumptions C06_refuted_pkname.
